@@ -52,6 +52,10 @@ var allNames = []string{"a", "b", "c", "d", "e", "x", "y", "unused"}
 
 type harnessPanic struct{ token string }
 
+// escapingPanic is raised by a handler and NOT contained by the relay: it
+// unwinds through ServeHTTP (as http.ErrAbortHandler does under Logger.Relay).
+type escapingPanic struct{ token string }
+
 // claimsAll is an error whose Is method answers true for every target.
 type claimsAll struct{ tok string }
 
@@ -216,6 +220,9 @@ func (w *world) buildMux(routes []route, table map[string]*request) *httpd.Mux {
 		switch r.beh.panicAt {
 		case 1:
 			panic(harnessPanic{r.token})
+		case 2:
+			store.W.WriteHeader(206)
+			panic(escapingPanic{r.token})
 		}
 		store.W.WriteHeader(200)
 		r.obs.IDs = append(r.obs.IDs, strings.Clone(store.GetID()))
@@ -226,6 +233,9 @@ func (w *world) buildMux(routes []route, table map[string]*request) *httpd.Mux {
 		r.obs.IDs = append(r.obs.IDs, strings.Clone(store.GetID()))
 		defer func() {
 			if p := recover(); p != nil {
+				if _, through := p.(escapingPanic); through {
+					panic(p) // this relay lets it unwind through ServeHTTP
+				}
 				if _, mine := p.(harnessPanic); !mine {
 					r.obs.GlbPanic = fmt.Sprint(p)
 				}
@@ -309,8 +319,12 @@ func (w *world) mainC05() {
 			for i := 0; i < n; i++ {
 				m, p := w.genPath()
 				r := w.newRequest(m, p, name)
-				if ch("req.panics", 5) == 0 {
+				switch ch("req.panics", 8) {
+				case 0:
 					r.beh.panicAt = 1
+				case 1:
+					r.beh.panicAt = 2
+					simrt.Probe("panic_unwinds_through_servehttp")
 				}
 				mine = append(mine, r)
 			}
@@ -359,6 +373,9 @@ func (w *world) mainC05() {
 	prefix := ""
 	for _, r := range w.reqs {
 		w.hist = append(w.hist, fmt.Sprintf("%s: %s %s -> route %q params %v", r.by, r.method, r.path, r.obs.RoutePath, nonEmpty(r.obs.Params)))
+		if r.beh.panicAt == 2 {
+			continue // the handler's own panic went through ServeHTTP: nothing to compare for this request
+		}
 		if r.escaped != "" {
 			w.violate("C05", "panic-left-servehttp", fmt.Sprintf("%s %s: %s", r.method, r.path, r.escaped))
 			continue
@@ -399,6 +416,10 @@ func (w *world) buildMuxHandler(table map[string]*request) httpd.HandlerFunc {
 		observe(store, r.obs)
 		if r.beh.panicAt == 1 {
 			panic(harnessPanic{r.token})
+		}
+		if r.beh.panicAt == 2 {
+			store.W.WriteHeader(206)
+			panic(escapingPanic{r.token})
 		}
 		store.W.WriteHeader(200)
 		r.obs.IDs = append(r.obs.IDs, strings.Clone(store.GetID()))
@@ -566,6 +587,11 @@ func (w *world) panicValue(r *request) any {
 		return error(e)
 	case 10:
 		return claimsAll{r.token}
+	case 11:
+		// the one value the property exempts: nothing is asserted about THIS
+		// request, but the requests that follow it must be served correctly
+		simrt.Probe("abort_handler_panic")
+		return http.ErrAbortHandler
 	default:
 		var e *nilErr
 		return error(e) // typed nil pointer whose type implements error
@@ -654,7 +680,7 @@ func (w *world) mainC15() {
 			b.body = ch("beh.body", 2) == 1
 			b.panicAt = []int{0, 0, 1, 2, 3}[ch("beh.panic", 5)]
 			if b.panicAt != 0 {
-				b.panicVal = ch("beh.panic_value", 11)
+				b.panicVal = ch("beh.panic_value", 12)
 			}
 			b.failBody = ch("beh.client_gone", 6) == 0
 			mine = append(mine, r)
@@ -677,6 +703,12 @@ func (w *world) mainC15() {
 	for _, r := range w.reqs {
 		b := r.beh
 		w.hist = append(w.hist, fmt.Sprintf("%s: %s %s behaviour=%+v -> client status %d, tid %s", r.by, r.method, r.path, b, r.resp.status, r.tid))
+		if b.panicAt != 0 && b.panicVal == 11 {
+			if r.tid != "" {
+				seenTid[r.tid] = r.id
+			}
+			continue // http.ErrAbortHandler: exempt (a relay may swallow it or let it through)
+		}
 		if r.escaped != "" {
 			w.violate("C15", "panic-escaped-relay", fmt.Sprintf("%s %s with handler behaviour %+v: panic left ServeHTTP: %s", r.method, r.path, b, r.escaped))
 			continue
